@@ -25,7 +25,8 @@ META = {
             "lengths are rejected by the client; the decoders terminate. Server (since the repairs of C15-F5b/d/e/g/h/i): "
             "accepted length information is sound (every Content-Length field a valid number equal to the length used; "
             "chunked iff Transfer-Encoding present, then no Content-Length and chunked final), chunked bodies with any "
-            "trailer section are framed and decoded exactly, the scan is total; the statements refuted on the code as "
+            "trailer section are framed and decoded exactly, the scan is total, and the requests framed / closes issued are "
+            "independent of how ANY byte stream within the buffer cap is cut into reads; the statements refuted on the code as "
             "found are now theorems with the old witnesses rejected. Model and code "
             "are run on the same generated streams and segmentations every run, including the body each handler receives.",
     "design_ref": "DESIGN.md §7 C15",
